@@ -20,7 +20,7 @@ type PolSpec struct {
 	ReadOnly bool     `json:"read_only,omitempty"`
 	Secure   bool     `json:"secure,omitempty"`
 	Allowed  []string `json:"allowed,omitempty"`
-	RL       bool     `json:"rl,omitempty"` // rate limiting with per-IP burst 1, 1 request/s
+	RL       bool     `json:"rl,omitempty"`          // rate limiting with per-IP burst 1, 1 request/s
 	RLGen    bool     `json:"rl_generous,omitempty"` // rate limiting on, generous request limits, tight per-operation limits (mount, readdir, large I/O)
 }
 
